@@ -39,7 +39,27 @@ Definition ev_eqb (a b : ev) : bool :=
 Inductive event :=
 | Trigger (cls : nat) (obj : Z)               (* core.events.trigger(Cls(obj)) *)
 | Listen (sid level timeout now : Z)          (* sessions.get(sid).reset_and_wait(timeout, level) with time.time() = now *)
-| Tick (now : Z).                             (* sessions.update() with time.time() = now *)
+| Tick (now : Z)                              (* sessions.update() with time.time() = now *)
+| Disable                                     (* core.events.disable(): trigger() returns at once until enable() *)
+| Enable.                                     (* core.events.enable() *)
+
+(* the history as the handlers see it: a Trigger while event handling is disabled reaches nobody.  The suppressed Trigger
+   is replaced (positions are identities, so nothing is removed) by Disable, which changes nothing while disabled. *)
+Fixpoint erase (en : bool) (tr : list event) : list event :=
+  match tr with
+  | [] => []
+  | Disable :: r => Disable :: erase false r
+  | Enable :: r => Enable :: erase true r
+  | Trigger cls obj :: r => (if en then Trigger cls obj else Disable) :: erase en r
+  | e :: r => e :: erase en r
+  end.
+Fixpoint enabled_after (en : bool) (tr : list event) : bool :=
+  match tr with
+  | [] => en
+  | Disable :: r => enabled_after false r
+  | Enable :: r => enabled_after true r
+  | _ :: r => enabled_after en r
+  end.
 
 (* a listen call (identified by the position of its Listen in the trace) is answered at step o_step with these events,
    oldest first *)
